@@ -95,7 +95,7 @@ def run_c08(prop, tier, seed, replay):
         if c["expect"]["deps"] or c["expect"]["jsdoc"] or c["expect"]["tsRefs"] or c["expect"]["sourceMap"]:
             nontrivial += 1
     coverage = dict(evaluations=res["documents"], distinct_nontrivial=nontrivial,
-                    rule="every document of Analyzer.tla with at most MaxItems items over the 33-item vocabulary x 9 headers x 2 footers x 6 media types (TLC-enumerated); "
+                    rule="every document of Analyzer.tla with at most MaxItems items over the 38-item vocabulary x 9 headers x 2 footers x 6 media types (TLC-enumerated); "
                          "non-trivial = the expected ModuleInfo is non-empty; each document is rendered `reps` times with seeded trivia (block/line comments, astral and combining "
                          "characters, CRLF, unicode escapes in string literals, random quote style) and analysed by ParserModuleAnalyzer",
                     samples=[json.loads(lines[i]) for i in (0, len(lines) // 2, len(lines) - 1)] if lines else [],
